@@ -461,8 +461,11 @@ def einsum(spec, *ops):
     for s, o in zip(ins, ops):
         assert len(s) == o.ndim, (s, o.shape)
         for c, n in zip(s, o.shape):
-            assert dims.get(c, n) == n, 'einsum dimension mismatch'
-            dims[c] = n
+            if c in dims and dims[c] != n:
+                assert dims[c] == 1 or n == 1, 'einsum dimension mismatch'      # numpy broadcasts size-1 axes
+                dims[c] = max(dims[c], n)
+            else:
+                dims[c] = n
     summed = [c for c in dims if c not in out]
     res = SymArray(tuple(dims[c] for c in out), maxkind(*ops))
     rp = res.plain()
@@ -474,7 +477,7 @@ def einsum(spec, *ops):
             env.update(zip(summed, sidx))
             t = Sc(1)
             for s, o in zip(ins, pl):
-                e = o[tuple(env[c] for c in s)]
+                e = o[tuple(env[c] if o.shape[ax] > 1 else 0 for ax, c in enumerate(s))]
                 if e.is_zero():
                     t = None
                     break
